@@ -25,6 +25,7 @@ type PropConfig struct {
 	Explanation string   `json:"explanation"`
 	Static      []string `json:"static_checks"` // names of front-end (type-level) checks
 	Bounded     []string `json:"bounded_checks"`
+	FunctionsFrom string `json:"functions_from"` // JSON file (relative to /verif) written by a generator: {"functions": [...], "problems": [...]}
 }
 
 type KnownFinding struct {
@@ -119,6 +120,30 @@ func cmdCheck(args []string) int {
 		} else {
 			missing = append(missing, k)
 		}
+	}
+	var genProblems []string
+	genChecked := 0
+	if pc.FunctionsFrom != "" {
+		var gen struct {
+			Functions []string `json:"functions"`
+			Problems  []string `json:"problems"`
+		}
+		b, err := os.ReadFile(filepath.Join(opt.Verif, pc.FunctionsFrom))
+		if err == nil {
+			err = json.Unmarshal(b, &gen)
+		}
+		if err != nil {
+			engineErrs = append(engineErrs, "functions_from: "+err.Error())
+		}
+		for _, k := range gen.Functions {
+			if f := eng.byName[k]; f != nil && len(f.Blocks) > 0 {
+				fns = append(fns, f)
+			} else {
+				missing = append(missing, k)
+			}
+		}
+		genProblems = gen.Problems
+		genChecked = len(gen.Functions)
 	}
 	results := eng.verifyAll(fns, opt)
 	known := loadKnown(opt.Verif)
@@ -249,6 +274,17 @@ func cmdCheck(args []string) int {
 		total++
 		report(m, "exists", "missing", "?", "function under contract not found in the current tree", "")
 		failed = append(failed, oblRec{m, "exists", "missing", "", "?", "function under contract not found"})
+	}
+	if pc.FunctionsFrom != "" {
+		// pairing of the generator's source data with the code (e.g. every metadata entry has a constructor): one static
+		// obligation per generated contract, violated by each problem the generator reports
+		total += genChecked
+		discharged += genChecked
+		for _, v := range genProblems {
+			total++
+			report("static", "generator: "+v, "violated", "?", "the data the contracts are generated from does not pair with the code", "")
+			failed = append(failed, oblRec{"static", "generator", "violated", "generator", "?", v})
+		}
 	}
 	nw, wv := eng.checkWriters(prop)
 	total += nw
